@@ -3,6 +3,9 @@ from shexer.model.shape_map import ShapeMap, ShapeMapItem
 from shexer.io.shape_map.node_selector.node_selector_parser import NodeSelectorParser
 from shexer.io.shape_map.label.shape_map_label_parser import ShapeMapLabelParser
 from shexer.utils.dict import reverse_keys_and_values
+import re
+
+_IRI_BETWEEN_CORNERS = re.compile(r'<[^\x00-\x20<>"{}|^`\\]*>')
 
 class ShapeMapParser(object):
 
@@ -117,11 +120,26 @@ class FixedShapeMapParser(ShapeMapParser):
         :return:
         """
         line = self._remove_trailing_comma(line)
-        pieces = line.split("@")
+        pieces = self._split_by_arroba_out_of_iris(line)
         if len(pieces) != 2:
             raise ValueError("There must be exactly a '@' char for each couple selector-label")
         return ShapeMapItem(shape_label=self._label_parser.parse_shape_map_label(pieces[1].strip()),
                             node_selector=self._node_selector_parser.parse_node_selector(pieces[0].strip()))
+
+    @staticmethod
+    def _split_by_arroba_out_of_iris(line):
+        """
+        An IRI between corners may contain '@' (<mailto:a@b.org>): those chars do not separate selector and label.
+        """
+        pieces = []
+        last_cut = 0
+        iri_spans = [a_match.span() for a_match in _IRI_BETWEEN_CORNERS.finditer(line)]
+        for i, a_char in enumerate(line):
+            if a_char == "@" and not any(start < i < end for start, end in iri_spans):
+                pieces.append(line[last_cut:i])
+                last_cut = i + 1
+        pieces.append(line[last_cut:])
+        return pieces
 
     @staticmethod
     def _remove_trailing_comma(line):
